@@ -442,18 +442,44 @@ func BatchMain(self, verifDir string, p *Prop, tier string) int {
 		// confirm in a fresh process
 		confirm := exec.Command(self, "one", p.ID, tier, strconv.FormatUint(seed, 10), strconv.Itoa(d.idx))
 		confirm.Env = childEnv()
-		done := make(chan error, 1)
-		confirm.Start()
-		go func() { done <- confirm.Wait() }()
-		var cerr error
-		select {
-		case cerr = <-done:
-		case <-time.After(time.Duration(max(p.MaxRunSecs, 60)) * time.Second):
-			confirm.Process.Kill()
-			cerr = fmt.Errorf("hung")
-		}
-		if cerr == nil {
-			fmt.Fprintf(os.Stderr, "HARNESS-TROUBLE property=%s run %d killed its worker but completes in a fresh process\n", p.ID, d.idx)
+		cob := &tailBuf{}
+		confirm.Stdout = cob
+		ccode, chung := runChild(confirm, max(p.MaxRunSecs, 60))
+		if ccode == 0 && !chung {
+			// alone it survives (the worker died of what its runs had accumulated, e.g. the
+			// memory cap); if it reports a violation of its own, that is the finding
+			out := string(cob.buf)
+			if i := strings.Index(out, "VIOLSIG "); i >= 0 {
+				vs := firstLineOf(out[i+8:])
+				msg := ""
+				if j := strings.Index(out, "VIOLMSG "); j >= 0 {
+					msg = firstLineOf(out[j+8:])
+				}
+				if seenDeathSig[vs] {
+					continue
+				}
+				seenDeathSig[vs] = true
+				rf := &ReplayFile{Property: p.ID, Engine: p.Engine, Tier: tier, Seed: seed, Run: d.idx, FromSeed: true, Signature: vs,
+					Violation: &Violation{Kind: "violation", Sig: vs, Msg: msg}, Env: EnvInfo()}
+				dir := filepath.Join(verifDir, "replays", p.ID)
+				os.MkdirAll(dir, 0o755)
+				path := filepath.Join(dir, sanitizeRe.ReplaceAllString(strings.TrimPrefix(vs, p.ID+":"), "_")+".json")
+				b, _ := json.MarshalIndent(rf, "", " ")
+				os.WriteFile(path, b, 0o644)
+				known2 := false
+				for _, f := range knownDeaths.Findings {
+					if f.Property == p.ID && f.Signature == vs {
+						known2 = true
+						fmt.Printf("KNOWN-FINDING: property=%s %s (signature %s)\n", p.ID, f.What, vs)
+					}
+				}
+				if !known2 {
+					fmt.Printf("VIOLATION property=%s replay=%s\n  signature: %s\n  %s\n  (the run killed its worker in the batch - %s - and reports this violation when run alone)\n", p.ID, path, vs, msg, sig)
+					deathExit = 1
+				}
+				continue
+			}
+			fmt.Fprintf(os.Stderr, "HARNESS-TROUBLE property=%s run %d killed its worker (%s) but completes without violation in a fresh process\n", p.ID, d.idx, sig)
 			return 2
 		}
 		rf := &ReplayFile{Property: p.ID, Engine: p.Engine, Tier: tier, Seed: seed, Run: d.idx, FromSeed: true, Signature: sig,
@@ -976,4 +1002,11 @@ func ShrinkMain(path string, budgetSecs int) int {
 	}
 	save()
 	return 0
+}
+
+func firstLineOf(s string) string {
+	if i := strings.IndexByte(s, '\n'); i >= 0 {
+		return s[:i]
+	}
+	return s
 }
